@@ -579,6 +579,73 @@ func CheckHistory(cs Case) (r Result) {
 	return Result{Outcome: core.Hash64("history", dens[0])}
 }
 
+// CheckSwitch: the characters of a page are a function of that page's own header (and designation packets), so
+// the last page of cs.Stream must read the same as the last page of cs.Prior[0], which differs only in the national
+// option of the page BEFORE it (this also holds for the reserved code 111, whatever its characters are).
+func CheckSwitch(cs Case) (r Result) {
+	last := func(st tt.Stream) (string, *Result) {
+		s, err, pan := safeRead(st.Bytes(), cs.Opts)
+		if pan != nil {
+			if pan.Astits {
+				return "", &Result{Excluded: "astits-panic", Outcome: core.Hash64("astits-panic", pan.Func)}
+			}
+			return "", &Result{Key: panicKey(pan, scan(st)), Msg: fmt.Sprintf("ReadFromTeletext panicked in %s: %s", pan.Func, pan.Msg)}
+		}
+		if err != nil {
+			return "", &Result{Key: "tt.read.error", Msg: fmt.Sprintf("ReadFromTeletext failed on a valid stream: %v", err)}
+		}
+		cues := FromSubs(s, nil)
+		if len(cues) != 2 {
+			return "", &Result{Key: "tt.switch.cue-count", Msg: fmt.Sprintf("two transmitted pages, %d cues read: %q", len(cues), tt.Denote(cues))}
+		}
+		return tt.Denote(cues[1:]), nil
+	}
+	a, bad := last(cs.Stream)
+	if bad != nil {
+		return *bad
+	}
+	b, bad := last(cs.Prior[0])
+	if bad != nil {
+		return *bad
+	}
+	if a != b {
+		return Result{Key: "tt.read.page-characters-depend-on-the-page-before", Msg: fmt.Sprintf("%s: the second page reads\n %q\nbut after a page of its own national option it reads\n %q", cs.Note, a, b)}
+	}
+	return Result{Outcome: core.Hash64("switch", a)}
+}
+
+// twoPageStream: the selected page transmitted twice, first under national option a, then under b, same cells.
+func twoPageStream(a, b tt.Subset, cells []byte) tt.Stream {
+	page := func(nat tt.Subset, at int64) tt.PES {
+		return tt.PES{PTS: at, Units: []tt.Unit{{Packet: hdr(selMag, 2, 0, true, true, nat)}, {Packet: row(selMag, 1, boxed(nil, 'k'))}, {Packet: row(selMag, 20, cells)}}}
+	}
+	return tt.Stream{ES: []tt.ES{{PID: mainPID, Descriptor: "teletext", PESs: []tt.PES{
+		page(a, pts0), page(b, pts0+second), {PTS: pts0 + 2*second, Units: []tt.Unit{tt.Stuffing()}},
+	}}}}
+}
+
+func switchCases() (out []Case) {
+	for b := tt.Subset(0); b < 8; b++ {
+		for a := tt.Subset(0); a < 8; a++ {
+			if a == b {
+				continue
+			}
+			for base := 0x20; base < 0x80; base += 0x20 {
+				cells := []byte{0x0b, 0x0b, 'x'}
+				for c := base; c < base+0x20; c++ {
+					cells = append(cells, byte(c))
+				}
+				cells = append(cells, 'x', 0x0a, 0x0a)
+				out = append(out, Case{Sub: "switch", Note: fmt.Sprintf("g0 %#x.. page of national option code %03b after a page of code %03b", base, b, a),
+					Opts:   tt.ReadOpts{Page: selPage, PID: mainPID},
+					Stream: twoPageStream(a, b, cells),
+					Prior:  []tt.Stream{twoPageStream(b, b, cells)}})
+			}
+		}
+	}
+	return
+}
+
 func historyCases() (out []Case) {
 	sweep := func(base int) []byte {
 		cells := []byte{0x0b, 0x0b, 'x'}
@@ -738,6 +805,18 @@ func run(c *core.Ctx) {
 		c.Record(hc.Sub, r.Outcome, core.Hash64("history", hc.Note), func() interface{} { return map[string]interface{}{"note": hc.Note} })
 		if r.Key != "" {
 			c.Violate(hc.Sub, r.Key, r.Msg, hc, 4000+len(hc.Note))
+		}
+	}
+
+	// (5b) independence of a page's characters from the page transmitted before it
+	for _, sc := range switchCases() {
+		if !c.Mine() {
+			continue
+		}
+		r := CheckSwitch(sc)
+		c.Record(sc.Sub, r.Outcome, core.Hash64("switch", sc.Note), func() interface{} { return map[string]interface{}{"note": sc.Note} })
+		if r.Key != "" {
+			c.Violate(sc.Sub, r.Key, r.Msg, sc, 4000+len(sc.Note))
 		}
 	}
 
@@ -914,6 +993,8 @@ func replay(sub string, raw json.RawMessage) (string, bool) {
 	r := Result{}
 	if cs.Sub == "history" {
 		r = CheckHistory(cs)
+	} else if cs.Sub == "switch" {
+		r = CheckSwitch(cs)
 	} else {
 		r = CheckRead(cs)
 	}
@@ -926,7 +1007,7 @@ func replay(sub string, raw json.RawMessage) (string, bool) {
 func init() {
 	core.Register(&core.Prop{
 		ID: "C06", Level: "exploration",
-		Rule: "a case = (packet-sequence word, transmission mode, multiplexing variant, reader options): every word over a 26-letter alphabet of data units (selected-page headers under three national sub-sets, headers of another page / the same number in another magazine / another magazine / time-filling / hexadecimal page, rows 1 20 22 24 of the selected magazine and a row of another magazine, X/26, X/28 (well coded and zero bytes), M/29, 8/30, non-subtitle unit, stuffing, two truncated units, PES boundary (+1 s), non-EBU PES, payload-less PES, stray byte) up to the length bound, in serial and parallel mode, each read with page given/auto x PID given/auto; plus twelve multiplexing variants over shorter words (incl. a first / last PES without EBU teletext data), the row-text tables (every G0 position under 7 national sub-sets, every string of spacing attributes 0x00..0x1F spread between / adjacent inside the letters ABCD with and without enclosing box, a parity failure at every cell), every truncation 0..43 of six packet kinds, and 72 read-after-read pairs (the same stream read after two different streams must denote the same); plus VALUE DOMAINS (values.go): one realistic delivery (lead-in PES, instance 1 with two rows, distractor page, instance 2, erase page, trailer) whose every field is an E1 site with a boundary-complete table - magazine 1..8, page tens/units {0,1,2,5,8,9}, sub-code {0,1,S1..S4 maxima,3F7F}, C4 C5 C6 C7-C9 C10 C11 each on/off, national option 0..6, row numbers {1,2,3,9,10,11,19..24}, 23 cell patterns (box never closed / text before box / two boxes / blanks only / box filling all 40 columns / character in column 39 / every colour / every size / flash steady backgrounds mosaics conceal ESC hold release / 0x20 0x7E 0x7F), first presentation time {10 s, 0, 9 ticks, across 2^32, up to 2^33-1} and gaps {0, 0.1 ms, 1 ms, s, 1 h, 10 h, 13 h, 26 h}, erase page or end of stream, data_identifier / data_unit_id / field-parity+line-offset byte / framing code (tables in the ball, all 256 values in a product) on the header's or a row's unit, Hamming 8/4 errors (single bit: corrected, two bits in an address / page number byte: packet rejected), PID {0x20,0x21,0x100,0xFFF,0x1001,0x1FFE}, descriptor 0x56 / 0x46 / none, 5 descriptor item lists (types 1..5, languages, several items, none), other descriptors before/after (0x52 0x0A 0x59 0x45 0x80, second teletext descriptor), 7 PMT layouts (look-alike PIDs with no / DVB-subtitling / VBI-data descriptor first, second teletext PID higher / lower / first), 7 distractor placements incl. pages with hexadecimal digits, X/26 X/27 X/28 M/29 8/30 X/31 with designation codes 0..15, page option {the page, 0, other page, <100, >=900, other magazine}, PID option {given, 0, absent, second}, PES alignment, table repetition, a non-private_stream_1 PES: every case within 2 (quick) / 3 (thorough) deviations of the baseline, and full products pages (all 800 page numbers) / hexpages / rowpairs (all ordered pairs of rows 1..25, all 24 rows in 3 orders) / hdrbits (all 2^7 control bit combinations) / texts / times / unitbytes / pmt / opts / ham / enh; ReadFromTeletext under recover() must return what the reference page machine (engine/ref/teletext.Expect) derives from the model (for the two freedoms of the sentence - a blank or nothing for spacing attributes other than colour/size/box, mosaic colour codes counting as colour codes or not - either reading, consistently); non-trivial = non-empty word or table entry, distinct by (word, mode, variant, options) / by value assignment",
+		Rule: "a case = (packet-sequence word, transmission mode, multiplexing variant, reader options): every word over a 26-letter alphabet of data units (selected-page headers under three national sub-sets, headers of another page / the same number in another magazine / another magazine / time-filling / hexadecimal page, rows 1 20 22 24 of the selected magazine and a row of another magazine, X/26, X/28 (well coded and zero bytes), M/29, 8/30, non-subtitle unit, stuffing, two truncated units, PES boundary (+1 s), non-EBU PES, payload-less PES, stray byte) up to the length bound, in serial and parallel mode, each read with page given/auto x PID given/auto; plus twelve multiplexing variants over shorter words (incl. a first / last PES without EBU teletext data), the row-text tables (every G0 position under 7 national sub-sets, every string of spacing attributes 0x00..0x1F spread between / adjacent inside the letters ABCD with and without enclosing box, a parity failure at every cell), every truncation 0..43 of six packet kinds, and 72 read-after-read pairs (the same stream read after two different streams must denote the same), 168 two-page streams (a page of national option code b = 0..7 after a page of code a != b reads as after a page of its own code, three G0 ranges); plus VALUE DOMAINS (values.go): one realistic delivery (lead-in PES, instance 1 with two rows, distractor page, instance 2, erase page, trailer) whose every field is an E1 site with a boundary-complete table - magazine 1..8, page tens/units {0,1,2,5,8,9}, sub-code {0,1,S1..S4 maxima,3F7F}, C4 C5 C6 C7-C9 C10 C11 each on/off, national option 0..6, row numbers {1,2,3,9,10,11,19..24}, 23 cell patterns (box never closed / text before box / two boxes / blanks only / box filling all 40 columns / character in column 39 / every colour / every size / flash steady backgrounds mosaics conceal ESC hold release / 0x20 0x7E 0x7F), first presentation time {10 s, 0, 9 ticks, across 2^32, up to 2^33-1} and gaps {0, 0.1 ms, 1 ms, s, 1 h, 10 h, 13 h, 26 h}, erase page or end of stream, data_identifier / data_unit_id / field-parity+line-offset byte / framing code (tables in the ball, all 256 values in a product) on the header's or a row's unit, Hamming 8/4 errors (single bit: corrected, two bits in an address / page number byte: packet rejected), PID {0x20,0x21,0x100,0xFFF,0x1001,0x1FFE}, descriptor 0x56 / 0x46 / none, 5 descriptor item lists (types 1..5, languages, several items, none), other descriptors before/after (0x52 0x0A 0x59 0x45 0x80, second teletext descriptor), 7 PMT layouts (look-alike PIDs with no / DVB-subtitling / VBI-data descriptor first, second teletext PID higher / lower / first), 7 distractor placements incl. pages with hexadecimal digits, X/26 X/27 X/28 M/29 8/30 X/31 with designation codes 0..15, page option {the page, 0, other page, <100, >=900, other magazine}, PID option {given, 0, absent, second}, PES alignment, table repetition, a non-private_stream_1 PES: every case within 2 (quick) / 3 (thorough) deviations of the baseline, and full products pages (all 800 page numbers) / hexpages / rowpairs (all ordered pairs of rows 1..25, all 24 rows in 3 orders) / hdrbits (all 2^7 control bit combinations) / texts / times / unitbytes / pmt / opts / ham / enh; ReadFromTeletext under recover() must return what the reference page machine (engine/ref/teletext.Expect) derives from the model (for the two freedoms of the sentence - a blank or nothing for spacing attributes other than colour/size/box, mosaic colour codes counting as colour codes or not - either reading, consistently); non-trivial = non-empty word or table entry, distinct by (word, mode, variant, options) / by value assignment",
 		Scope: map[core.Tier]string{
 			core.Quick:    "all words of length <= 3 over 26 letters and all words of length 4 over 16 letters, x {serial, parallel} x 4 reader option sets; 12 mux variants x words of length <= 2 over 26 letters; 15 173 row texts (attribute strings of <= 2 over all 32 codes, of 3 over the 14 colour/size/box codes); 528 truncations; 72 read-after-read pairs; value domains: 20 417 cases within 2 deviations over 40 sites, products pages 14 400, hexpages 3 072, rowpairs 2 524, hdrbits 7 168, texts 1 587, times 4 272 (336 beyond the 33-bit counter skipped), unitbytes 2 048, pmt 8 232, opts 4 704, ham 864, enh 1 536; designation precedence: 64 x 64 pairs of valid X/28/0 and M/29/0 triplets x 3 positions of the M/29/0 (a page with its own X/28/0 reads the same with or without the magazine packet)",
 			core.Thorough: "all words of length <= 4 over 26 letters and all words of length 5 over 14 letters, x {serial, parallel} x 4 reader option sets; 8 mux variants x words of length <= 3; 135 269 row texts (attribute strings of <= 3 over all 32 codes); truncations as quick; value domains: 1 280 002 cases within 3 deviations, products as quick",
